@@ -36,7 +36,20 @@ def required_cells(tier):
               "parallel-planes", "coincident-planes", "crossing-planes", "in-plane", "parallel-off-plane",
               "crossing-carrier/miss", "crossing/hit-at-end", "crossing/hit-interior"):
         req["scen:" + s] = 10
+    req["carrier:with-judged-inner-calls"] = 100 if tier == "quick" else 2000
     return req
+
+
+CARRIERS = [("PG", "PG"), ("S", "PH"), ("L", "PG"), ("H", "PH"), ("PL", "PH"), ("S", "PG"), ("PG", "PH"), ("L", "PH")]
+_inner = C.InnerShadow(lambda ka, kb: ka in gen.FLAT and kb in gen.FLAT, cap=8, p=0.5)
+
+
+def setup():
+    _inner.install()
+
+
+def worker_report():
+    return _inner.report()
 
 
 def cases(rng, budget, widx, nworkers, tier):
@@ -44,6 +57,13 @@ def cases(rng, budget, widx, nworkers, tier):
     while True:
         ka, kb = PAIRS[i % len(PAIRS)]
         i += 1
+        if i % 12 == 0:
+            # carrier case: a body-level intersection run only to harvest the library's own
+            # recursive flat-flat sub-calls, which are judged by the inner-call shadow check
+            ca, cb = CARRIERS[(i // 12) % len(CARRIERS)]
+            (a, b), label = gen.gen_pair(rng, ca, cb, small=True)
+            yield {"a": a, "b": b, "label": "carrier", "ls": rng.getrandbits(30), "carrier": True}
+            continue
         (a, b), label = gen.flat_pair(rng, ka, kb)
         yield {"a": a, "b": b, "label": label, "ls": rng.getrandbits(30)}
 
@@ -51,6 +71,16 @@ def cases(rng, budget, widx, nworkers, tier):
 def judge(case):
     G = load()
     a, b = case["a"], case["b"]
+    _inner.new_case()
+    if case.get("carrier"):
+        mu = core.Multi()
+        x, y = C.lift_pair(case)
+        M.call(G.intersection, x, y)
+        n = _inner.finish(mu)
+        mu.cell("carrier:%s,%s" % (a[0], b[0]))
+        if n:
+            mu.cell("carrier:with-judged-inner-calls")
+        return mu.result(nontrivial=n > 0, outcome="%d inner flat-flat calls judged" % n)
     exp = K.inter(a, b)
     if not core.admitted():
         return core.not_admitted("margin")
@@ -63,6 +93,7 @@ def judge(case):
     C.run_inter(G.intersection, x, y, exp, "intersection(a,b)", mu, kb_)
     if ka != "P":
         C.run_inter(lambda p, q: p.intersection(q), x, y, exp, "a.intersection(b)", mu, kb_)
+    _inner.finish(mu)
     return mu.result(outcome=C.show_short(exp, 120))
 
 
